@@ -206,7 +206,7 @@ def decide(pid, tier, units, args):
             continue
         viol.append(f)
     rc = 0
-    replay_dir = os.path.join(ROOT, "evidence", "replay")
+    replay_dir = os.path.join(ROOT, "evidence", "replay" if os.path.realpath(REPO) == "/repo" else "scratch")
     for f in viol:
         os.makedirs(replay_dir, exist_ok=True)
         path = os.path.join(replay_dir, "%s-%s.json" % (pid, f["id"].replace("/", "_").replace("::", "-")))
@@ -302,8 +302,10 @@ def write_evidence(pid, tier, seed, results, obligations, failures, bounded, vio
     ev = dict(property_id=pid, tier=tier, seed=seed, level=level, coverage=cov,
               assumptions=STANDING_ASSUMPTIONS + trusted + sorted({d for r in results for d in r.dropped}),
               wall_s=round(wall, 2), violations=len(viol))
-    os.makedirs(os.path.join(ROOT, "evidence"), exist_ok=True)
-    with open(os.path.join(ROOT, "evidence", "%s.json" % pid), "w") as f:
+    # evidence describes /repo; a run against a scratch tree (VERIF_REPO, mutation / seed testing) must not overwrite it
+    evdir = os.path.join(ROOT, "evidence") if os.path.realpath(REPO) == "/repo" else os.path.join(ROOT, "evidence", "scratch")
+    os.makedirs(evdir, exist_ok=True)
+    with open(os.path.join(evdir, "%s.json" % pid), "w") as f:
         json.dump(ev, f, indent=1)
 
 
